@@ -172,22 +172,30 @@ end refine
 
 /-! ### the `additive` combinator satisfies `Sim` once and for all -/
 
-theorem additive_sim (M : Acc A) (chk : B → Except Err Unit) (stat : B → A)
-    (outA : A → Except Err O) :
-    Sim (additive M chk stat outA) M stat id outA (fun _ => True) where
+theorem additive_sim (M : Acc A) (stat : B → Except Err A) (outA : A → Except Err O) :
+    Sim (additive M stat outA) M (statT M stat) id outA (fun _ => True) where
   init := ⟨trivial, rfl⟩
   upd := by
     intro s b s' _ h
     simp only [additive] at h
-    cases hc : chk b with
+    cases hc : stat b with
     | error e => simp [hc, bind, Except.bind] at h
-    | ok u =>
+    | ok a =>
       simp only [hc, bind, Except.bind, Except.ok.injEq] at h
-      exact ⟨trivial, h.symm⟩
+      exact ⟨trivial, by simp [statT, hc, h.symm]⟩
   mrg := by
     intro s ss s' _ _ h
     simp only [additive, Except.ok.injEq] at h
     exact ⟨trivial, by simpa using h.symm⟩
   out := by intro s _; rfl
+
+/-- for an additive class a single instance fed the live batches of any
+    history that ran without error also runs without error. -/
+theorem additive_upd_ok_iff (M : Acc A) (stat : B → Except Err A) (outA : A → Except Err O)
+    (s : A) (b : B) : (∃ s', (additive M stat outA).upd s b = .ok s') ↔ ∃ a, stat b = .ok a := by
+  simp only [additive]
+  cases stat b with
+  | error e => simp [bind, Except.bind]
+  | ok a => simp [bind, Except.bind]
 
 end TE
